@@ -4,7 +4,7 @@ from __future__ import annotations
 import copy
 from typing import Any, Dict, List
 
-from . import from_tlc, gen_asgi, gen_h1, gen_h2, gen_proto, gen_ws
+from . import from_tlc, gen_asgi, gen_h1, gen_h2, gen_limits, gen_proto, gen_ws
 
 COMMON_ASSUMPTIONS = [
     "h11/h2/wsproto/priority libraries behave as documented (their server roles are exercised, not re-verified)",
@@ -69,6 +69,7 @@ PROPS["C16"] = {"monitor": "C16", "generators": [gen_c16], "workers": ["pair"]}
 PROPS["C17"] = {"monitor": "C17", "adapter": "c17",
                 "design": [{"module": "Wsgi", "cfg": "MC_Wsgi.cfg"}],
                 "technique": "TLA+ oracle (Wsgi.tla) model-checked by TLC + TLC validation of real executions of every enumerated case"}
+PROPS["C18"] = {"monitor": "C18", "generators": [gen_limits.gen_c18, gen_h1.gen_c06]}
 PROPS["C19"] = {"monitor": "C19", "adapter": "c19", "procs": 4, "batch": 400,
                 "design": [{"module": "Config", "cfg": "MC_Config.cfg"}],
                 "technique": "TLA+ oracle (Config.tla, tables transcribed from the documentation) model-checked by TLC + TLC validation of real executions of every enumerated case"}
